@@ -138,6 +138,11 @@ def zm_zoomify(case, ctx):
             cooler.coarsen_cooler(base, pth, r // b0, chunksize=10 ** 6)
             bases.append(pth)
     out = os.path.join(d, "out.mcool")
+    if case.get("prior"):
+        # the output path already holds a multires file written by an EARLIER run (other data, other ladder)
+        pr = case["prior"]
+        old = _mk(os.path.join(d, "old.cool"), t, pr["px"], mode)
+        cooler.zoomify_cooler(old, out, list(pr["resolutions"]), chunksize=10 ** 6)
     try:
         if case.get("via") == "cli":
             from click.testing import CliRunner
@@ -165,6 +170,31 @@ def zm_zoomify(case, ctx):
         levels.append({"res": r, "table": _table_of(c), "px": _px_of(c), "raw": project.raw_uri(out + "::" + pth)})
     return {"err": "", "listing": [[x for x in s.split("/") if x] for s in listing], "levels": levels,
             "multires": bool(cooler.fileops.is_multires_file(out))}
+
+
+@driver("zm.multibase")
+def zm_multibase(case, ctx):
+    """Several base coolers that are NOT coarsenings of one another (bin sizes that do not divide each other, own data, own
+    value dtype): every level is derivable from exactly one of them.  Values are multiples of 1/4 (case px are in quarters)."""
+    import cooler
+    d = ctx.subdir()
+    uris = []
+    for k, b in enumerate(case["bases"]):
+        pth = os.path.join(d, f"b{k}.cool")
+        dt = np.dtype(b["dtype"])
+        px = gen.pixels_frame(b["px"], ["count"], {"count": np.float64})
+        px["count"] = (px["count"] / 4).astype(dt)
+        cooler.create_cooler(pth, gen.bins_frame(b["table"]), px, dtypes={"count": dt}, ordered=True,
+                             symmetric_upper=case["mode"] == "symm")
+        uris.append(pth)
+    out = os.path.join(d, "out.mcool")
+    cooler.zoomify_cooler(uris, out, list(case["resolutions"]), chunksize=case["chunk"])
+    levels = []
+    for pth in cooler.fileops.list_coolers(out):
+        c = cooler.Cooler(out + "::" + pth)
+        levels.append({"res": int(pth.rsplit("/", 1)[-1]), "table": _table_of(c),
+                       "px": project.pixel_rows(c.pixels()[:], ["bin1_id", "bin2_id", "count"], 4)})
+    return {"levels": levels}
 
 
 @driver("zm.resspec")
